@@ -107,7 +107,7 @@ func cmdVerify(args []string) {
 		}
 	}
 	for _, n := range names {
-		if _, ok := p.funcs[n]; !ok {
+		if _, ok := p.funcs[baseName(n)]; !ok {
 			fmt.Printf("!! no such function %s\n", n)
 			continue
 		}
